@@ -2,6 +2,7 @@
 integer and fixed-point operands is executed in the Coq ISA model and compared
 with Gen/Fixed.v (elaboration + C01's operand model) and with exact rationals."""
 from fractions import Fraction
+import json
 import math
 
 from .common import Check, Err, cz, cnat, cbool
@@ -195,6 +196,14 @@ class C02(GenCheck):
             if a[0] == "c" and b[0] == "c":
                 a = ["v", names[0]]
             case["cmp"] = [rng.choice(["==", "!=", "<", "<=", ">", ">="]), a, b]
+            xs = [n for n, _, f in case["decls"][:-1] if f == "x"]
+            if xs and rng.random() < 0.5:
+                # a fixed-point variable against a decimal limit too large for an immediate (the constant has to be loaded into a
+                # scratch register), the variable just below / at / just above the limit
+                lim = rng.choice([50000.5, 21474.83648, 30000.0, 123456.78901])
+                case["values"][xs[0]] = round(lim * 100000) + rng.choice([-1, 0, 0, 1, 100000])
+                case["cmp"] = [rng.choice(["==", "!=", "<", "<=", ">", ">="]), ["v", xs[0]], ["c", lim]]
+                case["wrap"] = True
             case["decls"][-1] = ("d", "local", "B")
         return case
 
@@ -217,6 +226,10 @@ class C02(GenCheck):
             st.append(["set", ["r", case["regdest"][0], case["regdest"][1]], case["expr"]])
             return st
         if "cmp" in case:
+            if case.get("wrap") or len(json.dumps(case["cmp"])) % 2 == 0:
+                # the comparison follows a conditional block that is SKIPPED at run time (d is 1) and contains the same comparison:
+                # nothing the generator prepared inside that block (a constant loaded into a scratch register) exists at run time
+                st.append(["if", ["==", ["v", "d"], ["c", 7]], [["if", case["cmp"], [["set", ["v", "d"], ["c", 3]]], None]], None])
             st.append(["if", case["cmp"], [["set", ["v", "d"], ["c", 1]]], [["set", ["v", "d"], ["c", 2]]]])
         else:
             st.append(["set", ["v", case["dest"]], case["expr"]])
